@@ -2878,7 +2878,9 @@ pub fn run(ctx: &Ctx) {
     ctx.set_rule("a case is one fit (or one batch of probability/prediction queries) judged by the harness's own gradient of the documented objective; non-trivial = both classes / in-support targets present and the solver's start point violates the stationarity threshold by more than 100x (the solver had to move); distinct = (shape, feature kind, configuration, float type, layout, label type, hash of the labels)");
     ctx.assume("stationarity threshold: |grad|_inf <= 10*tol + 64*eps_F*G + max(c*sqrt(eps_F*|J|*L), rho*G), c = 64 (f64) / 16 (f32), rho = 1e-4 (f64) / 1e-3 (f32), with G = sum_i |x~_i|_inf (times the residual magnitude for GLMs) + alpha|w|_inf and L an upper bound of the Hessian norm; the last term is the gradient that remains when the cost cannot decrease measurably in F (L-BFGS stops on its cost criterion)");
     ctx.assume("alpha = 0: cases without a finite minimiser (harness Newton iteration diverges: separable or quasi-separable data) are outside the quantifier and inconclusive");
-    ctx.assume("a fit that returns Err is inconclusive (the property speaks about returned models); a residual above the threshold that changes when the iteration budget is quadrupled is an exhausted budget, inconclusive");
+    ctx.assume("a fit that returns Err is inconclusive unless the error is one of the hyper-parameter guard on an in-domain configuration (violation); a residual above the threshold that changes when the iteration budget is quadrupled (or, when the longer run errs, between half and full budget) is an exhausted budget, inconclusive");
+    ctx.assume("GLM targets are of order 1 except for log-link fits with an intercept and power >= 1.5, a third of which have all targets scaled to 1e-6..1e-8 or 1e3; the same scaling without an intercept is not generated (ill-posed: the solver stops early on the unchanged tree)");
+    ctx.assume("f32 fits that fail the stationarity test are reported as violations only if the f64 fit of the same problem fails too; otherwise they are filed under the open f32 findings");
     ctx.assume("probabilities are compared with sigma / softmax of the logits recomputed in f64, allowing the logits an error of 4*eps_F*(p+2)*sum|terms|");
     let q = ctx.tier == Tier::Quick;
     // debugging aid: C12_ONLY=<family substring> runs a subset (never set by the harness driver)
